@@ -1,8 +1,637 @@
-(* P_Options.v — proofs about M_Options (work in progress). *)
+(* P_Options.v — reference semantics (lexical scoping) for C13 and the proofs relating the
+   store machine M_Options.run to it, for all programs, all schedules, any number of threads. *)
 Require Import Base M_Options.
 From SS.gen Require Import SrcFacts.
 
+(* the discipline under which the property is proved; the code has it iff the regenerated
+   facts say so (closed by reflexivity, breaks when the source changes) *)
 Definition good : disc := {| thread_local := true; restore_finally := true |}.
 
 Lemma facts_disc_good : facts_disc = good.
 Proof. reflexivity. Qed.
+
+(* ------------------------------------------------------------------------------------------
+   Reference semantics, written from the property text: options are LEXICALLY scoped.
+   [cur] = options of the innermost enclosing extract of the same thread, None outside. *)
+
+(* "extract_child(for_task=True) returns a frameless stub unless recursion was requested";
+   "outside any extraction extract_child refuses to run" *)
+Definition want_child (cur : option opts) (ft : bool) : cres :=
+  match cur, ft with
+  | None, _ => CRefuse
+  | Some (_, false), true => CStub
+  | Some _, _ => CFull
+  end.
+
+(* "with_contexts=False leaves every contexts empty" *)
+Definition want_read (cur : option opts) : rres :=
+  match cur with
+  | None => RRefuse
+  | Some (false, _) => REmpty
+  | Some (true, _) => RCtx
+  end.
+
+(* fill_context may be used outside an extraction: its hooks then run under (True, False) *)
+Definition fill_scope (cur : option opts) : option opts :=
+  match cur with None => Some (true, false) | Some _ => cur end.
+
+Fixpoint spec_obs (cur : option opts) (p : prog) : list obs :=
+  match p with
+  | PNil => []
+  | PExt o b _ r => spec_obs (Some o) b ++ spec_obs cur r
+  | PFill b _ r => spec_obs (fill_scope cur) b ++ spec_obs cur r
+  | PSame b _ r => OSame (is_some cur) :: spec_obs cur b ++ spec_obs cur r
+  | PChild ft r => OChild (want_child cur ft) :: spec_obs cur r
+  | PRead r => ORead (want_read cur) :: spec_obs cur r
+  end.
+
+Lemma child_res_spec cur ft : child_res cur ft = want_child cur ft.
+Proof. destruct cur as [[w [|]]|], ft; reflexivity. Qed.
+
+Lemma read_res_spec cur : read_res cur = want_read cur.
+Proof. destruct cur as [[[|] r]|]; reflexivity. Qed.
+
+(* ------------------------------------------------------------------------------------------
+   The single-thread machine: one history run alone on a private cell. *)
+
+Definition scfg := (option opts * list kent * list op * list obs)%type.
+
+Fixpoint srun (d : disc) (n : nat) (cell : option opts) (k : list kent) (td : list op)
+         (acc : list obs) : scfg :=
+  match n, td with
+  | S n', o :: rest =>
+      let '(c', k', ob) := step_op d cell k o in srun d n' c' k' rest (add_obs ob acc)
+  | _, _ => (cell, k, td, acc)
+  end.
+
+Definition srun_c (d : disc) (n : nat) (c : scfg) : scfg :=
+  let '(cell, k, td, acc) := c in srun d n cell k td acc.
+
+Lemma srun_add d a b : forall cell k td acc,
+  srun d (a + b) cell k td acc = srun_c d b (srun d a cell k td acc).
+Proof.
+  induction a as [|a IH]; intros; simpl.
+  - reflexivity.
+  - destruct td as [|o rest]; simpl.
+    + destruct b; reflexivity.
+    + destruct (step_op d cell k o) as [[c' k'] ob]. apply IH.
+Qed.
+
+Lemma srun_nil d n cell k acc : srun d n cell k [] acc = (cell, k, [], acc).
+Proof. destruct n; reflexivity. Qed.
+
+Definition to_tstate (c : scfg) : tstate :=
+  let '(_, k, td, acc) := c in {| todo := td; kstack := k; out_rev := acc |}.
+Definition cell_part (c : scfg) : option opts := let '(cell, _, _, _) := c in cell.
+Definition acc_part (c : scfg) : list obs := let '(_, _, _, acc) := c in acc.
+Definition todo_part (c : scfg) : list op := let '(_, _, td, _) := c in td.
+Definition k_part (c : scfg) : list kent := let '(_, k, _, _) := c in k.
+
+(* one history alone, from the initial state *)
+Definition solo (d : disc) (h : list op) (n : nat) : scfg := srun d n None [] h [].
+
+(* ---------- projection: with a thread-local store the global run, seen from thread t, is the
+   single-thread run of t's own history for as many steps as t was scheduled ---------- *)
+
+Definition cnt (s : list nat) (t : nat) : nat := count_occ Nat.eq_dec s t.
+
+Lemma tstate_eta ts : {| todo := todo ts; kstack := kstack ts; out_rev := out_rev ts |} = ts.
+Proof. destruct ts; reflexivity. Qed.
+
+Lemma gstep_self d st t : thread_local d = true ->
+  let c := srun d 1 (sto st t) (kstack (thr st t)) (todo (thr st t)) (out_rev (thr st t)) in
+  sto (gstep d st t) t = cell_part c /\ thr (gstep d st t) t = to_tstate c.
+Proof.
+  intros TL. unfold gstep, key. rewrite TL. simpl.
+  destruct (todo (thr st t)) as [|o rest] eqn:E; simpl.
+  - split; [reflexivity|]. rewrite <- E. symmetry. apply tstate_eta.
+  - destruct (step_op d (sto st t) (kstack (thr st t)) o) as [[c' k'] ob]. simpl.
+    unfold upd. rewrite Nat.eqb_refl. split; reflexivity.
+Qed.
+
+Lemma gstep_other d st u t : thread_local d = true -> u <> t ->
+  sto (gstep d st u) t = sto st t /\ thr (gstep d st u) t = thr st t.
+Proof.
+  intros TL NE. unfold gstep, key. rewrite TL.
+  destruct (todo (thr st u)) as [|o rest]; [split; reflexivity|].
+  destruct (step_op d (sto st u) (kstack (thr st u)) o) as [[c' k'] ob]. simpl.
+  unfold upd. assert (t =? u = false) as -> by (apply Nat.eqb_neq; auto).
+  split; reflexivity.
+Qed.
+
+Lemma projection d : thread_local d = true -> forall sched st t,
+  let c := srun d (cnt sched t) (sto st t) (kstack (thr st t)) (todo (thr st t)) (out_rev (thr st t)) in
+  sto (run d st sched) t = cell_part c /\ thr (run d st sched) t = to_tstate c.
+Proof.
+  intros TL. induction sched as [|u r IH]; intros st t.
+  - simpl. split; [reflexivity|]. symmetry. apply tstate_eta.
+  - simpl run. unfold cnt. simpl count_occ.
+    destruct (Nat.eq_dec u t) as [->|NE].
+    + specialize (IH (gstep d st t) t).
+      destruct (gstep_self d st t TL) as [E1 E2].
+      change (S (count_occ Nat.eq_dec r t)) with (1 + cnt r t).
+      rewrite srun_add.
+      destruct (srun d 1 (sto st t) (kstack (thr st t)) (todo (thr st t)) (out_rev (thr st t)))
+        as [[[c1 k1] td1] a1] eqn:E.
+      simpl in E1, E2. rewrite E1, E2 in IH. simpl in IH. exact IH.
+    + specialize (IH (gstep d st u) t).
+      destruct (gstep_other d st u t TL NE) as [E1 E2].
+      rewrite E1, E2 in IH. exact IH.
+Qed.
+
+Lemma projection_init d : thread_local d = true -> forall hists sched t,
+  let st := run d (init hists) sched in
+  cell_of d st t = cell_part (solo d (nth t hists []) (cnt sched t))
+  /\ thr st t = to_tstate (solo d (nth t hists []) (cnt sched t)).
+Proof.
+  intros TL hists sched t. unfold cell_of, key. rewrite TL.
+  exact (projection d TL sched (init hists) t).
+Qed.
+
+(* ---------- the single-thread machine on a well-nested block ---------- *)
+
+Lemma flatten_len_ext o b e r :
+  length (flatten (PExt o b e r)) = 1 + (length (flatten b) + (1 + length (flatten r))).
+Proof. simpl. rewrite app_length. simpl. reflexivity. Qed.
+
+Lemma leave_push d (RF : restore_finally d = true) e cell p k :
+  step_op d cell (KPush p :: k) (leave e) = (p, k, None).
+Proof. destruct e; simpl; [rewrite RF|]; reflexivity. Qed.
+
+Lemma leave_nopush d e cell k :
+  step_op d cell (KNoPush :: k) (leave e) = (cell, k, None).
+Proof. destruct e; reflexivity. Qed.
+
+(* Key lemma: a complete block leaves the cell and the control stack as it found them and
+   emits exactly the lexically scoped observations. *)
+Lemma block d (RF : restore_finally d = true) : forall p cell k rest acc,
+  srun d (length (flatten p)) cell k (flatten p ++ rest) acc
+  = (cell, k, rest, rev (spec_obs cell p) ++ acc).
+Proof.
+  induction p as [|o b IHb e r IHr|b IHb e r IHr|b IHb e r IHr|ft r IHr|r IHr]; intros cell k rest acc.
+  - reflexivity.
+  - rewrite flatten_len_ext. simpl flatten. simpl app. rewrite <- app_assoc. simpl app.
+    change (1 + (length (flatten b) + (1 + length (flatten r)))) with (S (length (flatten b) + (1 + length (flatten r)))).
+    simpl srun. rewrite srun_add, IHb. simpl srun_c.
+    rewrite leave_push by exact RF. simpl add_obs.
+    rewrite IHr. simpl spec_obs. rewrite rev_app_distr, <- app_assoc. reflexivity.
+  - simpl flatten. simpl length. rewrite app_length. simpl length.
+    simpl app. rewrite <- app_assoc. simpl app.
+    destruct cell as [c|].
+    + simpl srun. rewrite srun_add, IHb. simpl srun_c.
+      rewrite leave_nopush. simpl add_obs. rewrite IHr.
+      simpl spec_obs. rewrite rev_app_distr, <- app_assoc. reflexivity.
+    + simpl srun. rewrite srun_add, IHb. simpl srun_c.
+      rewrite leave_push by exact RF. simpl add_obs. rewrite IHr.
+      simpl spec_obs. rewrite rev_app_distr, <- app_assoc. reflexivity.
+  - simpl flatten. simpl length. rewrite app_length. simpl length.
+    simpl app. rewrite <- app_assoc. simpl app.
+    simpl srun. rewrite srun_add, IHb. simpl srun_c.
+    rewrite leave_nopush. simpl add_obs. rewrite IHr.
+    simpl spec_obs. simpl rev. rewrite rev_app_distr.
+    rewrite <- !app_assoc. reflexivity.
+  - simpl. rewrite IHr. rewrite child_res_spec. rewrite <- app_assoc. reflexivity.
+  - simpl. rewrite IHr. rewrite read_res_spec. rewrite <- app_assoc. reflexivity.
+Qed.
+
+(* observations only grow *)
+Lemma srun_grows d n : forall cell k td acc,
+  exists l, acc_part (srun d n cell k td acc) = l ++ acc.
+Proof.
+  induction n as [|n IH]; intros.
+  - exists []. reflexivity.
+  - destruct td as [|o rest]; [exists []; reflexivity|]. simpl.
+    destruct (step_op d cell k o) as [[c' k'] ob].
+    destruct (IH c' k' rest (add_obs ob acc)) as [l E]. rewrite E.
+    destruct ob as [x|]; simpl.
+    + exists (l ++ [x]). rewrite <- app_assoc. reflexivity.
+    + exists l. reflexivity.
+Qed.
+
+Lemma srun_todo d n : forall cell k td acc,
+  todo_part (srun d n cell k td acc) = skipn n td.
+Proof.
+  induction n as [|n IH]; intros; [reflexivity|].
+  destruct td as [|o rest]; [reflexivity|]. simpl.
+  destruct (step_op d cell k o) as [[c' k'] ob]. apply IH.
+Qed.
+
+(* a whole program run alone from the initial state *)
+Lemma solo_complete d (RF : restore_finally d = true) p n :
+  length (flatten p) <= n ->
+  solo d (flatten p) n = (None, [], [], rev (spec_obs None p)).
+Proof.
+  intros L. unfold solo.
+  replace n with (length (flatten p) + (n - length (flatten p))) by lia.
+  rewrite srun_add.
+  pose proof (block d RF p None [] [] []) as B. rewrite !app_nil_r in B. rewrite B.
+  simpl. apply srun_nil.
+Qed.
+
+Lemma solo_prefix d (RF : restore_finally d = true) p n :
+  exists l, spec_obs None p = rev (acc_part (solo d (flatten p) n)) ++ l.
+Proof.
+  destruct (Nat.le_gt_cases (length (flatten p)) n) as [L|L].
+  - rewrite (solo_complete d RF p n L). simpl. rewrite rev_involutive. exists []. rewrite app_nil_r. reflexivity.
+  - pose proof (solo_complete d RF p (n + (length (flatten p) - n))) as C.
+    unfold solo in *. rewrite srun_add in C.
+    destruct (srun d n None [] (flatten p) []) as [[[c1 k1] td1] a1] eqn:E.
+    simpl in C. simpl.
+    destruct (srun_grows d (length (flatten p) - n) c1 k1 td1 a1) as [l G].
+    rewrite C in G by lia. simpl in G.
+    exists (rev l). apply (f_equal (@rev obs)) in G. rewrite rev_involutive, rev_app_distr in G. exact G.
+Qed.
+
+(* ------------------------------------------------------------------------------------------
+   Global theorems *)
+
+Lemma nth_flatten progs t : nth t (map flatten progs) [] = flatten (nth t progs PNil).
+Proof. change (@nil op) with (flatten PNil). apply map_nth. Qed.
+
+(* Non-interference: what thread t observes and the options it sees depend only on its own
+   history and on how often it was scheduled -- for ANY histories of the other threads (not
+   even well-nested ones) and any restore discipline. *)
+Lemma noninterference d : thread_local d = true ->
+  forall hists hists' sched sched' t,
+    nth t hists [] = nth t hists' [] -> cnt sched t = cnt sched' t ->
+    obs_of (run d (init hists) sched) t = obs_of (run d (init hists') sched') t
+    /\ cell_of d (run d (init hists) sched) t = cell_of d (run d (init hists') sched') t.
+Proof.
+  intros TL hists hists' sched sched' t H C.
+  destruct (projection_init d TL hists sched t) as [A1 A2].
+  destruct (projection_init d TL hists' sched' t) as [B1 B2].
+  unfold obs_of. rewrite A1, A2, B1, B2, H, C. split; reflexivity.
+Qed.
+
+(* ... in particular it equals the run of that history alone in a one-thread system *)
+Lemma cnt_repeat n : cnt (repeat 0 n) 0 = n.
+Proof. unfold cnt. induction n; simpl; [reflexivity|]. rewrite IHn. reflexivity. Qed.
+
+Lemma equals_single_thread_run d : thread_local d = true ->
+  forall hists sched t,
+    obs_of (run d (init hists) sched) t
+    = obs_of (run d (init [nth t hists []]) (repeat 0 (cnt sched t))) 0.
+Proof.
+  intros TL hists sched t.
+  destruct (projection_init d TL hists sched t) as [_ A2].
+  destruct (projection_init d TL [nth t hists []] (repeat 0 (cnt sched t)) 0) as [_ B2].
+  unfold obs_of. rewrite A2, B2. simpl nth. rewrite cnt_repeat. reflexivity.
+Qed.
+
+Lemma obs_of_solo d : thread_local d = true -> forall hists sched t,
+  obs_of (run d (init hists) sched) t = rev (acc_part (solo d (nth t hists []) (cnt sched t))).
+Proof.
+  intros TL hists sched t. destruct (projection_init d TL hists sched t) as [_ A2].
+  unfold obs_of. rewrite A2.
+  destruct (solo d (nth t hists []) (cnt sched t)) as [[[c k] td] a]. reflexivity.
+Qed.
+
+(* Scoped: every thread observes a prefix of -- and once its history is finished exactly --
+   the lexically scoped reference semantics of ITS OWN program, under every schedule and
+   whatever the other threads run. *)
+Lemma scoped d : thread_local d = true -> restore_finally d = true ->
+  forall progs sched t,
+    let st := run d (init (map flatten progs)) sched in
+    let p := nth t progs PNil in
+    (exists l, spec_obs None p = obs_of st t ++ l)
+    /\ (length (flatten p) <= cnt sched t -> obs_of st t = spec_obs None p /\ cell_of d st t = None).
+Proof.
+  intros TL RF progs sched t. simpl.
+  rewrite (obs_of_solo d TL). rewrite nth_flatten. split.
+  - apply solo_prefix; assumption.
+  - intros L. destruct (projection_init d TL (map flatten progs) sched t) as [A1 _].
+    rewrite A1, nth_flatten. rewrite (solo_complete d RF _ _ L). simpl.
+    rewrite rev_involutive. split; reflexivity.
+Qed.
+
+(* Restored: when a call (with everything nested in it) has returned or has been left by an
+   exception, the thread sees the options -- and has the control stack -- it had before the
+   call; at any depth (h1 is an arbitrary prefix, possibly with calls still open), under any
+   schedule, whatever the other threads do in between. *)
+Lemma restored d : thread_local d = true -> restore_finally d = true ->
+  forall hists t h1 blk h2 sched1 sched2,
+    nth t hists [] = h1 ++ flatten blk ++ h2 ->
+    cnt sched1 t = length h1 ->
+    cnt sched2 t = length h1 + length (flatten blk) ->
+    cell_of d (run d (init hists) sched2) t = cell_of d (run d (init hists) sched1) t
+    /\ kstack (thr (run d (init hists) sched2) t) = kstack (thr (run d (init hists) sched1) t)
+    /\ todo (thr (run d (init hists) sched2) t) = h2.
+Proof.
+  intros TL RF hists t h1 blk h2 s1 s2 H C1 C2.
+  destruct (projection_init d TL hists s1 t) as [A1 A2].
+  destruct (projection_init d TL hists s2 t) as [B1 B2].
+  rewrite A1, A2, B1, B2, H, C1, C2. unfold solo. rewrite srun_add.
+  pose proof (srun_todo d (length h1) None [] (h1 ++ flatten blk ++ h2) []) as T.
+  destruct (srun d (length h1) None [] (h1 ++ flatten blk ++ h2) []) as [[[c1 k1] td1] a1].
+  simpl in T. rewrite skipn_app, skipn_all, Nat.sub_diag in T. simpl in T. subst td1.
+  simpl srun_c. rewrite (block d RF). simpl. auto.
+Qed.
+
+(* ---------- stubs and contexts at every depth of nesting ---------- *)
+
+(* a tower of extract calls, each with its own options and its own way of ending *)
+Fixpoint nest (lv : list (opts * bool)) (inner : prog) : prog :=
+  match lv with
+  | [] => inner
+  | (o, e) :: r => PExt o (nest r inner) e PNil
+  end.
+
+Lemma spec_nest : forall lv cur inner,
+  spec_obs cur (nest lv inner)
+  = spec_obs (match last_opt lv with Some (o, _) => Some o | None => cur end) inner.
+Proof.
+  induction lv as [|[o e] r IH]; intros; [reflexivity|].
+  simpl nest. simpl spec_obs. rewrite app_nil_r, IH.
+  unfold last_opt. simpl rev.
+  destruct (rev r) as [|[o' e'] q] eqn:E; reflexivity.
+Qed.
+
+Lemma last_opt_snoc {A} (l : list A) x : last_opt (l ++ [x]) = Some x.
+Proof. unfold last_opt. rewrite rev_app_distr. reflexivity. Qed.
+
+Lemma stub d : thread_local d = true -> restore_finally d = true ->
+  forall progs sched t lv w rc e ft,
+    nth t progs PNil = nest (lv ++ [((w, rc), e)]) (PChild ft PNil) ->
+    length (flatten (nth t progs PNil)) <= cnt sched t ->
+    obs_of (run d (init (map flatten progs)) sched) t
+    = [OChild (if ft && negb rc then CStub else CFull)].
+Proof.
+  intros TL RF progs sched t lv w rc e ft H L.
+  destruct (scoped d TL RF progs sched t) as [_ S]. destruct (S L) as [-> _].
+  rewrite H, spec_nest, last_opt_snoc. simpl. destruct rc, ft; reflexivity.
+Qed.
+
+Lemma contexts_flag d : thread_local d = true -> restore_finally d = true ->
+  forall progs sched t lv w rc e,
+    nth t progs PNil = nest (lv ++ [((w, rc), e)]) (PRead PNil) ->
+    length (flatten (nth t progs PNil)) <= cnt sched t ->
+    obs_of (run d (init (map flatten progs)) sched) t = [ORead (if w then RCtx else REmpty)].
+Proof.
+  intros TL RF progs sched t lv w rc e H L.
+  destruct (scoped d TL RF progs sched t) as [_ S]. destruct (S L) as [-> _].
+  rewrite H, spec_nest, last_opt_snoc. simpl. destruct w; reflexivity.
+Qed.
+
+(* sequencing of programs at the same level *)
+Fixpoint papp (p q : prog) : prog :=
+  match p with
+  | PNil => q
+  | PExt o b e r => PExt o b e (papp r q)
+  | PFill b e r => PFill b e (papp r q)
+  | PSame b e r => PSame b e (papp r q)
+  | PChild ft r => PChild ft (papp r q)
+  | PRead r => PRead (papp r q)
+  end.
+
+Lemma spec_papp cur p q : spec_obs cur (papp p q) = spec_obs cur p ++ spec_obs cur q.
+Proof.
+  induction p; simpl; rewrite ?IHp2, ?IHp; rewrite <- ?app_assoc; reflexivity.
+Qed.
+
+(* outside any extraction -- before the first top-level call, between two, after the last --
+   extract_child refuses, whatever ran before on this thread (also calls left by exception)
+   and whatever the other threads are in the middle of *)
+Lemma refuses_outside d : thread_local d = true -> restore_finally d = true ->
+  forall progs sched t before ft after,
+    nth t progs PNil = papp before (PChild ft after) ->
+    length (flatten (nth t progs PNil)) <= cnt sched t ->
+    obs_of (run d (init (map flatten progs)) sched) t
+    = spec_obs None before ++ OChild CRefuse :: spec_obs None after.
+Proof.
+  intros TL RF progs sched t before ft after H L.
+  destruct (scoped d TL RF progs sched t) as [_ S]. destruct (S L) as [-> _].
+  rewrite H, spec_papp. reflexivity.
+Qed.
+
+(* ---------- the two parameters of the discipline are both needed ---------- *)
+
+Definition wit_a : prog := PExt (true, true) (PRead (PChild true PNil)) false (PChild true PNil).
+Definition wit_b : prog := PExt (false, false) (PRead (PChild true PNil)) false (PChild true PNil).
+
+Lemma global_store_refuted :
+  exists progs sched t,
+    obs_of (run {| thread_local := false; restore_finally := true |} (init (map flatten progs)) sched) t
+    <> spec_obs None (nth t progs PNil)
+    /\ length (flatten (nth t progs PNil)) <= cnt sched t.
+Proof.
+  exists [wit_a; wit_b], [0; 1; 0; 0; 1; 1; 0; 1; 0; 1], 0. split; [|vm_compute; lia].
+  vm_compute. discriminate.
+Qed.
+
+Lemma no_finally_refuted :
+  exists progs sched t,
+    obs_of (run {| thread_local := true; restore_finally := false |} (init (map flatten progs)) sched) t
+    <> spec_obs None (nth t progs PNil)
+    /\ length (flatten (nth t progs PNil)) <= cnt sched t.
+Proof.
+  exists [PExt (true, true) PNil true (PChild true PNil)], [0; 0; 0], 0. split; [|vm_compute; lia].
+  vm_compute. discriminate.
+Qed.
+
+
+(* ---------- histories given as operation lists: well-nested = balanced ---------- *)
+Fixpoint balanced (depth : nat) (h : list op) : bool :=
+  match h with
+  | [] => depth =? 0
+  | Enter _ :: r | FillEnter :: r | SameEnter :: r => balanced (S depth) r
+  | LeaveOk :: r | LeaveExc :: r => match depth with 0 => false | S d => balanced d r end
+  | Child _ :: r | Read :: r => balanced depth r
+  end.
+
+Definition segs (l : list (bool * prog)) : list op :=
+  concat (map (fun s : bool * prog => leave (fst s) :: flatten (snd s)) l).
+
+Lemma balanced_shape : forall h d, balanced d h = true ->
+  exists p0 l, length l = d /\ h = flatten p0 ++ segs l.
+Proof.
+  induction h as [|o r IH]; intros d B.
+  - simpl in B. apply Nat.eqb_eq in B. subst. exists PNil, []. split; reflexivity.
+  - destruct o as [v| | | | |ft|]; simpl in B.
+    + destruct (IH _ B) as (p0 & l & L & E). destruct l as [|[e p1] l]; [discriminate|].
+      exists (PExt v p0 e p1), l. split; [simpl in L; lia|].
+      rewrite E. simpl. unfold segs. simpl. rewrite <- !app_assoc. reflexivity.
+    + destruct (IH _ B) as (p0 & l & L & E). destruct l as [|[e p1] l]; [discriminate|].
+      exists (PFill p0 e p1), l. split; [simpl in L; lia|].
+      rewrite E. simpl. unfold segs. simpl. rewrite <- !app_assoc. reflexivity.
+    + destruct (IH _ B) as (p0 & l & L & E). destruct l as [|[e p1] l]; [discriminate|].
+      exists (PSame p0 e p1), l. split; [simpl in L; lia|].
+      rewrite E. simpl. unfold segs. simpl. rewrite <- !app_assoc. reflexivity.
+    + destruct d as [|d]; [discriminate|].
+      destruct (IH _ B) as (p0 & l & L & E).
+      exists PNil, ((false, p0) :: l). split; [simpl; lia|]. rewrite E. reflexivity.
+    + destruct d as [|d]; [discriminate|].
+      destruct (IH _ B) as (p0 & l & L & E).
+      exists PNil, ((true, p0) :: l). split; [simpl; lia|]. rewrite E. reflexivity.
+    + destruct (IH _ B) as (p0 & l & L & E).
+      exists (PChild ft p0), l. split; [exact L|]. rewrite E. reflexivity.
+    + destruct (IH _ B) as (p0 & l & L & E).
+      exists (PRead p0), l. split; [exact L|]. rewrite E. reflexivity.
+Qed.
+
+Lemma balanced_tree h : balanced 0 h = true -> exists p, flatten p = h.
+Proof.
+  intros B. destruct (balanced_shape h 0 B) as (p0 & l & L & E).
+  destruct l; [|discriminate]. exists p0. rewrite E. unfold segs. simpl. rewrite app_nil_r. reflexivity.
+Qed.
+
+Lemma flatten_balanced : forall p d r, balanced d r = true -> balanced d (flatten p ++ r) = true.
+Proof.
+  induction p as [|o b IHb e r0 IHr|b IHb e r0 IHr|b IHb e r0 IHr|ft r0 IHr|r0 IHr]; intros d r B; simpl.
+  - exact B.
+  - rewrite <- app_assoc. apply IHb. simpl. destruct e; simpl; apply IHr; exact B.
+  - rewrite <- app_assoc. apply IHb. simpl. destruct e; simpl; apply IHr; exact B.
+  - rewrite <- app_assoc. apply IHb. simpl. destruct e; simpl; apply IHr; exact B.
+  - apply IHr; exact B.
+  - apply IHr; exact B.
+Qed.
+
+Lemma balanced_trees hists : forallb (balanced 0) hists = true -> exists progs, map flatten progs = hists.
+Proof.
+  induction hists as [|h r IH]; intros B.
+  - exists []. reflexivity.
+  - simpl in B. apply andb_true_iff in B as [B1 B2].
+    destruct (balanced_tree h B1) as [p E]. destruct (IH B2) as [ps Es].
+    exists (p :: ps). simpl. rewrite E, Es. reflexivity.
+Qed.
+
+(* scoped, for histories given as operation lists *)
+Lemma scoped_histories d : thread_local d = true -> restore_finally d = true ->
+  forall hists sched t, forallb (balanced 0) hists = true ->
+    exists p, nth t hists [] = flatten p
+      /\ (exists l, spec_obs None p = obs_of (run d (init hists) sched) t ++ l)
+      /\ (length (nth t hists []) <= cnt sched t ->
+          obs_of (run d (init hists) sched) t = spec_obs None p
+          /\ cell_of d (run d (init hists) sched) t = None).
+Proof.
+  intros TL RF hists sched t B. destruct (balanced_trees hists B) as [progs E]. subst hists.
+  exists (nth t progs PNil). rewrite nth_flatten. split; [reflexivity|].
+  exact (scoped d TL RF progs sched t).
+Qed.
+
+(* ---------- all_schedules is complete ---------- *)
+
+Lemma nth_dec_nth : forall l u t,
+  nth t (dec_nth l u) 0 = if t =? u then pred (nth t l 0) else nth t l 0.
+Proof.
+  induction l as [|x l IH]; intros u t.
+  - assert (E : forall k, nth k (@nil nat) 0 = 0) by (destruct k; reflexivity).
+    destruct u; simpl dec_nth; rewrite E; destruct (t =? _); reflexivity.
+  - destruct u as [|u]; simpl.
+    + destruct t; reflexivity.
+    + destruct t as [|t]; [reflexivity|]. simpl. apply IH.
+Qed.
+
+Lemma length_dec_nth : forall l u, length (dec_nth l u) = length l.
+Proof. induction l; destruct u; simpl; auto. Qed.
+
+Lemma sum_dec_nth : forall l u, 0 < nth u l 0 -> list_sum l = S (list_sum (dec_nth l u)).
+Proof.
+  induction l as [|x l IH]; intros u H.
+  - destruct u; simpl in H; lia.
+  - destruct u as [|u]; simpl in *.
+    + lia.
+    + rewrite (IH u H). lia.
+Qed.
+
+Lemma sum_zero : forall l, (forall t, nth t l 0 = 0) -> list_sum l = 0.
+Proof.
+  induction l as [|x l IH]; intros H; [reflexivity|].
+  simpl. rewrite (H 0 : x = 0). apply IH. intros t. exact (H (S t)).
+Qed.
+
+Lemma all_schedules_complete : forall s counts,
+  (forall t, cnt s t = nth t counts 0) -> In s (all_schedules (list_sum counts) counts).
+Proof.
+  induction s as [|u r IH]; intros counts H.
+  - rewrite sum_zero; [left; reflexivity|]. intros t. rewrite <- H. reflexivity.
+  - assert (P : 0 < nth u counts 0).
+    { rewrite <- H. unfold cnt. simpl. destruct (Nat.eq_dec u u); [lia|congruence]. }
+    assert (U : u < length counts).
+    { destruct (Nat.lt_ge_cases u (length counts)); auto. rewrite nth_overflow in P; lia. }
+    rewrite (sum_dec_nth counts u P). simpl all_schedules.
+    apply in_flat_map. exists u. split; [apply in_seq; lia|].
+    assert (0 <? nth u counts 0 = true) as -> by (apply Nat.ltb_lt; exact P).
+    apply in_map. apply IH. intros t. rewrite nth_dec_nth.
+    specialize (H t). unfold cnt in *. simpl in H.
+    destruct (Nat.eq_dec u t) as [->|NE].
+    + rewrite Nat.eqb_refl. lia.
+    + assert (t =? u = false) as -> by (apply Nat.eqb_neq; auto). exact H.
+Qed.
+
+Lemma schedules_of_complete progs s :
+  (forall t, cnt s t = length (flatten (nth t progs PNil))) -> In s (schedules_of progs).
+Proof.
+  intros H. unfold schedules_of. apply all_schedules_complete. intros t. rewrite H.
+  symmetry. exact (map_nth (fun p => length (flatten p)) progs PNil t).
+Qed.
+
+(* ------------------------------------------------------------------------------------------
+   Instances for the code as it is: the discipline regenerated from the source.  These two
+   lemmas are the only place where the source facts enter; they stop checking as soon as
+   ExtractOptions is no longer a threading.local or push no longer restores in `finally`. *)
+
+Lemma code_thread_local : thread_local facts_disc = true.
+Proof. reflexivity. Qed.
+Lemma code_restores_in_finally : restore_finally facts_disc = true.
+Proof. reflexivity. Qed.
+Lemma code_entry_points_push : SrcFacts.c13_entry_points_push = true.
+Proof. reflexivity. Qed.
+
+Definition code_noninterference := noninterference facts_disc code_thread_local.
+Definition code_single_thread := equals_single_thread_run facts_disc code_thread_local.
+Definition code_scoped := scoped facts_disc code_thread_local code_restores_in_finally.
+Definition code_restored := restored facts_disc code_thread_local code_restores_in_finally.
+Definition code_stub := stub facts_disc code_thread_local code_restores_in_finally.
+Definition code_contexts_flag := contexts_flag facts_disc code_thread_local code_restores_in_finally.
+Definition code_scoped_histories := scoped_histories facts_disc code_thread_local code_restores_in_finally.
+Definition code_refuses_outside := refuses_outside facts_disc code_thread_local code_restores_in_finally.
+
+(* ---------- examples: the hypotheses are met by non-trivial inputs ---------- *)
+
+(* two threads with opposite options, interleaved operation by operation *)
+Definition ex_progs : list prog := [wit_a; wit_b].
+Definition ex_sched : list nat := [0; 1; 0; 0; 1; 1; 0; 1; 0; 1].
+
+Example ex_scoped :
+  length (flatten (nth 0 ex_progs PNil)) <= cnt ex_sched 0
+  /\ length (flatten (nth 1 ex_progs PNil)) <= cnt ex_sched 1
+  /\ run_progs facts_disc ex_progs ex_sched
+     = [[ORead RCtx; OChild CFull; OChild CRefuse]; [ORead REmpty; OChild CStub; OChild CRefuse]].
+Proof. vm_compute. repeat split; lia. Qed.
+
+(* restored: depth 2, inner call left by exception, other thread in the middle of its own call *)
+Definition ex_blk : prog := PExt (false, false) (PRead PNil) true PNil.
+Definition ex_hists : list (list op) :=
+  [ [Enter (true, true); Child true] ++ flatten ex_blk ++ [Child true; LeaveOk]; flatten wit_b ].
+Example ex_restored :
+  nth 0 ex_hists [] = [Enter (true, true); Child true] ++ flatten ex_blk ++ [Child true; LeaveOk]
+  /\ cnt [0; 1; 0; 1] 0 = 2 /\ cnt [0; 1; 0; 1; 0; 1; 0; 0] 0 = 2 + length (flatten ex_blk)
+  /\ cell_of facts_disc (run facts_disc (init ex_hists) [0; 1; 0; 1; 0; 1; 0; 0]) 0 = Some (true, true)
+  /\ cell_of facts_disc (run facts_disc (init ex_hists) [0; 1; 0; 1; 0; 1; 0]) 0 = Some (false, false).
+Proof. vm_compute. repeat split. Qed.
+
+(* stub at depth 3 under (with_contexts, recurse) = (_, false), outer levels say recurse = true *)
+Example ex_stub :
+  let p := nest ([((true, true), false); ((false, true), true)] ++ [((true, false), false)]) (PChild true PNil) in
+  length (flatten p) <= cnt [1; 0; 0; 1; 0; 0; 0; 1; 0; 0; 1; 1] 0
+  /\ run_progs facts_disc [p; wit_a] [1; 0; 0; 1; 0; 0; 0; 1; 0; 0; 1; 1]
+     = [[OChild CStub]; [ORead RCtx; OChild CFull; OChild CRefuse]].
+Proof. vm_compute. split; [lia|reflexivity]. Qed.
+
+Example ex_refuses :
+  let p := papp (PExt (true, true) (PChild true PNil) true PNil) (PChild true (PFill (PChild true PNil) false PNil)) in
+  length (flatten p) <= cnt [0; 0; 0; 0; 0; 0; 0] 0
+  /\ run_progs facts_disc [p] [0; 0; 0; 0; 0; 0; 0] = [[OChild CFull; OChild CRefuse; OChild CStub]].
+Proof. vm_compute. split; [lia|reflexivity]. Qed.
+
+Example ex_balanced :
+  forallb (balanced 0) ex_hists = true
+  /\ balanced 0 [Enter (true, true); FillEnter; Child true; LeaveExc; SameEnter; Read; LeaveOk; LeaveOk; Child false] = true
+  /\ balanced 0 [Enter (true, true); LeaveOk; LeaveOk] = false.
+Proof. vm_compute. repeat split. Qed.
+
+Example ex_schedules :
+  length (schedules_of ex_progs) = 252
+  /\ existsb (list_eqb Nat.eqb ex_sched) (schedules_of ex_progs) = true
+  /\ (forall t, t < 2 -> cnt ex_sched t = length (flatten (nth t ex_progs PNil))).
+Proof. repeat split; try (vm_compute; reflexivity). intros [|[|t]] H; try reflexivity. lia. Qed.
